@@ -380,5 +380,6 @@ Definition constant_type (a : cattr) : option ty :=
   end.
 Definition constant_node (a : cattr) : node :=
   mkNode (KSource (constant_value a)) [] false [mkOut "output" "output" (constant_type a) None None].
+(* _Initializer: Tensor(arr.dtype, arr.shape) (alias dtypes are canonicalised by Tensor since fix F3) and the array itself *)
 Definition initializer_node (e : elem) (s : list nat) : node :=
-  mkNode (KSource (Some (VArr e s))) [] false [mkOut "arg" "arg" (Some (Tensor e (Some (map DConst s)))) None None].
+  mkNode (KSource (Some (VArr e s))) [] false [mkOut "arg" "arg" (Some (Tensor (norm_elem e) (Some (map DConst s)))) None None].
